@@ -132,6 +132,26 @@ Section Trees.
     eauto.
   Qed.
 
+  (* what lies below a tree is a tree, a blob, or not stored *)
+  Lemma below_tree_kind : forall a b, reach st sh a b -> forall es, get_tree st a = Some es ->
+    get_commit st b = None /\ (forall tg, get st b <> Some (Tag tg)).
+  Proof.
+    induction 1 as [a|a b c Hc Hr IH]; intros es Ha.
+    - apply get_tree_get in Ha. unfold get_commit. rewrite Ha. split; [reflexivity | congruence].
+    - destruct (tree_children _ _ _ Ha Hc) as (e & Hi & Hk & ->).
+      destruct (e_kind e) eqn:K; [| |congruence].
+      + destruct (get_tree st (e_id e)) as [es1|] eqn:T1; [eapply IH; eauto|].
+        pose proof (entry_typed_of _ _ _ Ha Hi) as Ty. unfold entry_typed in Ty. rewrite K in Ty.
+        apply andb_true_iff in Ty. destruct Ty as [Ty _].
+        assert (Hn : get st (e_id e) = None).
+        { unfold get_tree in T1. destruct (get st (e_id e)) as [[]|]; try discriminate; reflexivity. }
+        inversion Hr; subst.
+        * unfold get_commit. rewrite Hn. split; [reflexivity | congruence].
+        * exfalso. inversion H; subst; congruence.
+      + rewrite (file_entry_reach _ _ _ _ Ha Hi K Hr).
+        destruct (file_entry_get _ _ _ Ha Hi K) as [[X|X] _]; unfold get_commit; rewrite X; split; congruence.
+  Qed.
+
   (* ---------------- markTreeSeen ---------------- *)
   Definition mark_post (root : oid) (seen seen' : list oid) : Prop :=
     incl seen seen' /\ forall x, In x seen' -> In x seen \/ reach st sh root x.
